@@ -204,6 +204,43 @@ func invalidTexts(rng *gen.RNG, emit func(text, class string)) {
 	}
 }
 
+func c07History(c *Ctx, cases []spellCase) {
+	rng := c.RNG.Fork(77)
+	var valid, invalid []spellCase
+	for i, k := range cases {
+		if k.Valid && i%37 == 0 && len(valid) < 400 {
+			valid = append(valid, k)
+		}
+		if !k.Valid && i%11 == 0 && len(invalid) < 2000 {
+			invalid = append(invalid, k)
+		}
+	}
+	if len(valid) == 0 || len(invalid) == 0 {
+		return
+	}
+	n := c.N(40000, 600000)
+	for i := 0; i < n; i++ {
+		hot := valid[rng.Intn(min(len(valid), 1+i%24))] // a small hot set, revisited
+		switch rng.Intn(4) {
+		case 0:
+			judgeSpell(c, invalid[rng.Intn(len(invalid))])
+		case 1:
+			// an unrelated valid text, then an invalid one made of valid characters with an impossible length
+			judgeSpell(c, valid[rng.Intn(len(valid))])
+			t := valid[rng.Intn(len(valid))].Text
+			t = strings.TrimRight(strings.TrimSpace(t), "=")
+			for len(t)%8 != 1 && len(t)%8 != 3 && len(t)%8 != 6 {
+				t += "A"
+			}
+			if len(t) >= 9 {
+				judgeSpell(c, spellCase{Text: t, Class: "impossible-length"})
+			}
+		}
+		judgeSpell(c, hot)
+		c.R.Count("history_steps", 1)
+	}
+}
+
 func init() {
 	register(&Prop{
 		ID: "C07",
@@ -237,6 +274,9 @@ func init() {
 				})
 			}
 			parallelJudge(c, cases, judgeSpell)
+			// sequential history on one goroutine: hot valid spellings repeated byte-identically, interleaved with invalid
+			// texts of every class (a decoder that remembers or reuses anything across calls shows up here)
+			c07History(c, cases)
 			if !hooks.Available() {
 				c.R.Inconclusive("HMAC key observation per spelling: verif hooks unavailable")
 			}
